@@ -1,4 +1,5 @@
 import CCT.Props.C09
+import CCT.Lemmas.FileThreads
 import CCT.Props.C05
 import CCT.Props.C04
 /-!
@@ -57,6 +58,56 @@ theorem other_members_do_not_matter (C : CryptoFns) (top top' : List (PStr × J)
       dictGet (ps! "signatures") r = some (.obj (sigSection C (unhex keyHex) arts arts2)) ∧
       dictGet (ps! "signatures") r' = some (.obj (sigSection C (unhex keyHex) arts arts2)) :=
   ⟨_, _, signRepo_ok C top keyHex hk arts arts2 h1 h2, signRepo_ok C top' keyHex hk arts arts2 h1' h2', dictGet_dictSet_same _ _ _, dictGet_dictSet_same _ _ _⟩
+
+-- ---------------------------------------------------------------------------------------------------------------------
+-- several in-place signing runs at the same time (Model/FileThreads.lean)
+
+/-- the in-place signing of a repodata file as a job: parse, `sign_all_in_repodata` at value level, canonical bytes of the result -/
+def signRepoJob (C : CryptoFns) (name : PStr) (keyHex : PStr) : FileJob :=
+  { name := name
+    run := fun content => match content with
+      | none => none
+      | some b => match loadBytes b with
+        | none => none
+        | some doc => match signRepodataJ C doc (.str keyHex) with
+          | .ok doc' => some (ser doc')
+          | .error _ => none }
+
+/-- **runs on different files do not disturb one another, under any schedule**: any family of in-place jobs on pairwise different file names, any
+interleaving of their reads, computations and writes — every job that has finished has left in its file exactly what it leaves when it runs alone on the
+original file system (its result on the file's *original* content; the original content if it failed), every file that is no job's is untouched -/
+theorem concurrent_jobs_independent (jobs : Nat → FileJob) (hd : ∀ i j, (jobs i).name = (jobs j).name → i = j) (fs0 : FS) (sched : List Nat)
+    (ts0 : Nat → FLocal) (h0 : ∀ i, (ts0 i).pc = 0) :
+    (∀ i, 3 ≤ ((runJobs jobs fs0 ts0 sched).2 i).pc → (runJobs jobs fs0 ts0 sched).1 (jobs i).name = jobResult (jobs i) fs0) ∧
+    (∀ x, (∀ j, (jobs j).name ≠ x) → (runJobs jobs fs0 ts0 sched).1 x = fs0 x) := by
+  have inv := FInv.run jobs hd fs0 sched fs0 ts0 (FInv.init jobs fs0 ts0 h0)
+  refine ⟨fun i hi => ?_, inv.others⟩
+  rcases inv.threads i with ⟨h, _⟩ | ⟨h, _⟩ | ⟨h, _⟩ | ⟨_, hr⟩
+  · omega
+  · omega
+  · omega
+  · exact hr
+
+/-- in particular two signing runs on `linux-64/repodata.json` and `noarch/repodata.json` with two keys: whatever the schedule, once both have finished
+each file holds what signing it alone gives -/
+theorem two_signing_runs (C : CryptoFns) (a b ka kb : PStr) (hab : a ≠ b) (fs0 : FS) (sched : List Nat) (ts0 : Nat → FLocal) (h0 : ∀ i, (ts0 i).pc = 0)
+    (jobs : Nat → FileJob) (hj0 : jobs 0 = signRepoJob C a ka) (hj1 : jobs 1 = signRepoJob C b kb)
+    (hd : ∀ i j, (jobs i).name = (jobs j).name → i = j)
+    (hf0 : 3 ≤ ((runJobs jobs fs0 ts0 sched).2 0).pc) (hf1 : 3 ≤ ((runJobs jobs fs0 ts0 sched).2 1).pc) :
+    (runJobs jobs fs0 ts0 sched).1 a = jobResult (signRepoJob C a ka) fs0 ∧ (runJobs jobs fs0 ts0 sched).1 b = jobResult (signRepoJob C b kb) fs0 := by
+  obtain ⟨hfin, _⟩ := concurrent_jobs_independent jobs hd fs0 sched ts0 h0
+  have e0 := hfin 0 hf0
+  have e1 := hfin 1 hf1
+  rw [hj0] at e0; rw [hj1] at e1
+  have _ := hab
+  exact ⟨e0, e1⟩
+
+/-- a job run alone is read, compute, write: its file ends as `jobResult` says -/
+theorem job_alone (jb : FileJob) (fs0 : FS) (ts : Nat → FLocal) (h0 : (ts 0).pc = 0) :
+    (runJobs (fun _ => jb) fs0 ts [0, 0, 0]).1 jb.name = jobResult jb fs0 := by
+  cases hr : jb.run (fs0 jb.name) with
+  | none => simp [runJobs, stepJob, h0, jobResult, hr]
+  | some b => simp [runJobs, stepJob, h0, jobResult, hr, FS.put]
 
 theorem fold_keys (C : CryptoFns) (seed : Bytes) : ∀ (arts sigs : List (PStr × J)) (k : PStr),
     k ∈ (arts.foldl (fun s a => dictSet s a.1 (artifactEntry C seed a.2)) sigs).map (·.1) ↔ k ∈ sigs.map (·.1) ∨ k ∈ arts.map (·.1)
